@@ -968,7 +968,19 @@ static int handleResponse(KSI_AsyncClient *c, void *resp,
 
 		res = resp_verifyWithRequest(resp, req);
 		if (res != KSI_OK) {
-			KSI_pushError(c->ctx, res, NULL);
+			KSI_Utf8String *errorMsg = NULL;
+
+			/* The response does not suit its request: it is this request that fails, not the
+			 * connection and the other requests waiting on it. */
+			status = NULL;
+			resp_getStatus(resp, &status);
+			resp_getErrorMsg(resp, &errorMsg);
+			KSI_LOG_error(c->ctx, "Async response does not match the request: 0x%x", res);
+			handle->state = KSI_ASYNC_STATE_ERROR;
+			handle->err = res;
+			handle->errExt = (status != NULL ? (long)KSI_Integer_getUInt64(status) : 0);
+			handle->errMsg = KSI_Utf8String_ref(errorMsg);
+			res = KSI_OK;
 			goto cleanup;
 		}
 
